@@ -8,8 +8,11 @@ ASSUMPTIONS = vh_c02.ASSUMPTIONS[:4] + [
     "oracle: the terminal output holds branch i's / item i's marker output at position i for every schedule; the state after the join is entered (history) only after the last branch state exited; MapIterationStarted indices are exactly 0..n-1 once each; the number of started-but-not-exited iterations (history) never exceeds MaxConcurrency when it is > 0",
     "the item count n and MaxConcurrency are symbolic integers that flow into the engine's own Range arithmetic (get_start_index, asl_state_Map_delegate, asl_state_collect_results)",
 ]
-SPLIT = {"par2": [("_none", "not fa and not fb")],
+SPLIT = {"par2": [("_none", "not fa and not fb")], "par_inner_catch": [("_ok", "not bfail")], "nested_par": [("_ok", "not fail")],
          "map_conc": [("_n%d" % k, "n == %d" % k) for k in range(4)]}
-scn.register(globals(), {"C05", "C02"}, ["par2", "par_pass_task", "map_conc", "par3"], SPLIT)
-# n == 3 only in the thorough tier
+scn.register(globals(), {"C05", "C02"}, ["par2", "par_pass_task", "map_conc", "par3", "par_inner_catch", "nested_par"], SPLIT)
+# n == 3: quick tier only for MaxConcurrency 2 (the smallest case with a partial last batch), all values in thorough
 globals()["map_conc_n3"]._vf.tiers = ("thorough",)
+scn.register(globals(), {"C05", "C02"}, ["map_conc"], {"map_conc": [("_n3_mc2", "n == 3 and mc == 2")]})
+globals()["map_conc_n3_mc2"]._vf.tiers = ("quick",)
+globals()["map_conc_n3_mc2"]._vf.bounds = {"quick": {"N": 3}}
